@@ -12,7 +12,7 @@ RULE = ("construction programs: a pool of expressions shared between several com
         "model is compared with the implementation on the composites; non-trivial = a pool member used in >= 2 composites")
 TRUSTED = pcommon.TRUSTED_PARSE
 
-INPUTS = ["", "a", "ab", "a b", "ab ab", " a", "a,b", "aab", "ba", "a a a a", "(a)", "ab,ab ,a"]
+INPUTS = ["", "a", "ab", "a b", "ab ab", " a", "a,b", "aab", "ba", "a a a a", "(a)", "ab,ab ,a", ",a", "\na", ",ab ,a", "\nab a", "a\nb", "\tab,b"]
 
 
 def pool():
@@ -153,6 +153,43 @@ def copy_checks(ctx):
                               {"kind": "copy", "member": n})
 
 
+def composite_copy_checks(ctx):
+    """a copy of a COMPOSITE parses identically to the composite: every pool member as first / second operand of every binary
+    operator and wrapper (the composite inherits whitespace settings from its operands; copy() must not reset them)"""
+    import pyparsing as pp
+    strip = lambda bs: [x[:2] if x[0] == "ok" else x for x in bs]
+    shapes = [("m + 'b'", lambda m: m + pp.Literal("b")), ("'a' + m", lambda m: pp.Literal("a") + m), ("m | 'b'", lambda m: m | pp.Literal("b")),
+              ("m ^ 'b'", lambda m: m ^ pp.Literal("b")), ("m & 'b'", lambda m: m & pp.Literal("b")), ("m - 'b'", lambda m: m - pp.Literal("b")),
+              ("Group(m + 'b')", lambda m: pp.Group(m + pp.Literal("b"))), ("Opt(m) + 'b'", lambda m: pp.Opt(m) + pp.Literal("b")),
+              ("(m + 'b')[1, ...]", lambda m: (m + pp.Literal("b"))[1, ...]), ("(m + 'b') + 'a'", lambda m: (m + pp.Literal("b")) + pp.Literal("a")),
+              ("m*2", lambda m: m * 2), ("Suppress(m) + 'b'", lambda m: pp.Suppress(m) + pp.Literal("b"))]
+    for n, mk in pool():
+        for sname, shape in shapes:
+            for used_first in (False, True):
+                try:
+                    c = shape(mk())
+                except Exception:
+                    continue
+                if used_first:
+                    behaviour(c)          # streamlined before it is copied
+                for how, cp in (("copy()", lambda: c.copy()), ("expr()", lambda: c()), ("expr('k')", lambda: c("k")),
+                                ("set_results_name('k')", lambda: c.set_results_name("k")), ("copy of enclosing Group", lambda: pp.Group(c).copy())):
+                    try:
+                        d = cp()
+                    except Exception as x:
+                        ctx.violation("composite-copy-raises:%s:%s" % (n, sname), "%s of %s with m=%s raises %s" % (how, sname, n, type(x).__name__),
+                                      {"kind": "composite-copy"})
+                        continue
+                    b0 = guarded(lambda: strip(behaviour(pp.Group(c) if how.startswith("copy of") else c)))
+                    b1 = guarded(lambda: strip(behaviour(d)))
+                    ctx.case("composite-copy:%s:%s:%s:%d" % (n, sname, how, used_first), True, True)
+                    if b0 != b1 and "timeout" not in (b0, b1):
+                        diff = [(s, x, y) for s, x, y in zip(INPUTS, b0, b1) if x != y][:2]
+                        ctx.violation("composite-copy-differs:%s:%s" % (n, sname),
+                                      "%s of the composite %s with m = pool member %r parses differently from the composite%s: (input, original, copy) %r" % (
+                                          how, sname, n, " (after it was used)" if used_first else "", diff), {"kind": "composite-copy"})
+
+
 def sugar_table():
     import pyparsing as pp
     A = lambda: pp.Literal("a")
@@ -211,6 +248,7 @@ def correspond(ctx):
     corr.ensure_driver()
     rng = ctx.rng
     copy_checks(ctx)
+    composite_copy_checks(ctx)
     sugar_checks(ctx)
     nprog = 40 if not ctx.thorough else 400
     for p in range(nprog):
@@ -251,6 +289,11 @@ def replay(ctx, obj):
     r = obj["replay"]
     c2 = vlib.Ctx(PROP, "quick", 0)
     c2.known = {}
+    if r.get("kind") == "composite-copy":
+        composite_copy_checks(c2)
+        for v in c2.violations:
+            print(v["what"])
+        return not c2.violations
     if r.get("kind") == "copy":
         copy_checks(c2)
     elif r.get("kind") == "sugar":
